@@ -284,7 +284,17 @@ type runOpts struct {
 
 func (e *Engine) verifyOne(key string, con *Contract, o runOpts) *FuncResult {
 	start := time.Now()
-	res := e.buildVCFix(key, con, o)
+	var res *FuncResult
+	if strings.HasPrefix(key, "lemma:") {
+		res = &FuncResult{Key: key, Err: "no such lemma"}
+		for i, l := range e.Lemmas {
+			if "lemma:"+l.Name == key {
+				res = e.lemmaResult(i)
+			}
+		}
+	} else {
+		res = e.buildVCFix(key, con, o)
+	}
 	if res.Err != "" {
 		return res
 	}
